@@ -452,7 +452,9 @@ class Histogram:
             raise ValueError("Bin edges must be monotonically increasing.")
 
         self.number_of_bins_ += 1
-        self.bin_edges_ = np.insert(self.bin_edges_, index, bin_edge)
+        self.bin_edges_ = np.insert(
+            self.bin_edges_.astype(float), index, bin_edge
+        )
 
         self.histograms_ = np.asarray(
             [np.insert(hist, index, 0) for hist in self.histograms_]
